@@ -14,14 +14,14 @@ enum { VD_NONE = 0, VD_EQUAL, VD_NULL, VD_DIFFERENT, VD_DIRTY_PADDING, VD_ACCEPT
 static const char *vd_names[VD_N] = { "none", "equal", "null", "different_matrix", "dirty_padding", "accepted_unsupported", "leak", "write_failure_reported", "write_ok", "wrong_dimensions", "accepted_malformed" };
 
 /* ---------- reach probes ---------- */
-#define NPROBE 43
+#define NPROBE 45
 static const char *probe_names[NPROBE] = {
   "torn_in_signature", "torn_in_IHDR", "torn_in_tEXt", "torn_in_IDAT", "torn_in_IEND", "torn_at_chunk_boundary",
   "flip_in_length", "flip_in_type", "flip_in_data", "flip_in_crc", "flip_in_signature",
   "eio_on_png_read", "short_reads_roundtrip", "foreign_depth1", "foreign_depth2", "foreign_depth4", "foreign_depth8", "foreign_depth16",
   "foreign_gray", "foreign_palette", "foreign_rgb", "foreign_rgba", "foreign_gray_alpha", "foreign_interlaced",
   "jcf_index0", "jcf_positive_first", "jcf_index_too_large", "jcf_too_many_rows", "jcf_bad_modulus", "jcf_short_header", "jcf_negative_dims", "jcf_huge_dims", "jcf_torn", "jcf_valid", "jcf_garbage_token", "jcf_long_min",
-  "write_enospc", "write_open_fail", "write_close_fail", "roundtrip_plain", "from_str", "jcf_eio", "torn_between_IDAT_chunks" };
+  "write_trailer_on_buffer_boundary", "write_unbuffered", "write_enospc", "write_open_fail", "write_close_fail", "roundtrip_plain", "from_str", "jcf_eio", "torn_between_IDAT_chunks" };
 static uint64_t probes[NPROBE];
 static int probe_id(const char *n) { for (int i = 0; i < NPROBE; i++) if (!strcmp(probe_names[i], n)) return i; return -1; }
 static void probe(const char *n) { int i = probe_id(n); if (i >= 0) probes[i]++; }
@@ -139,6 +139,7 @@ static int parse_plan(const char *line, simfs_plan_t *pl) {
       else if (!strcmp(key, "open_errno")) pl->open_errno = (int)val;
       else if (!strcmp(key, "write_fail_at")) pl->write_fail_at = val;
       else if (!strcmp(key, "close_fails")) pl->close_fails = (int)val;
+      else if (!strcmp(key, "unbuffered")) pl->unbuffered = (int)val;
     }
   }
   return 0;
@@ -350,8 +351,8 @@ static int run_one(const char *text, char mode, const char *errpath, tally_t *t,
     eng_write_file(fn, full.s);
     eng_first_line_matching(errpath, "rror", buf, sizeof buf);
     eng_find_lib_frame(errpath);
-    /* attribution (DESIGN 2.9): a temporary that is not released is C11's clause, everything else here is C18's */
-    printf("V idx=%llu prop=%s class=%s func=%s scen=%s mode=%c file=%s detail=%s\n", (unsigned long long)idx, !strcmp(vc, "leak") ? "C11" : "C18", vc, eng_top_lib_frame[0] ? eng_top_lib_frame : "-", kind, mode, fn, buf);
+    /* attribution (DESIGN 2.9): a temporary that is not released - or released twice on a write error path - is C11's clause, everything else here is C18's */
+    printf("V idx=%llu prop=%s class=%s func=%s scen=%s mode=%c file=%s detail=%s\n", (unsigned long long)idx, (!strcmp(vc, "leak") || (!strcmp(vc, "invalid_free") && mode == 'W')) ? "C11" : "C18", vc, eng_top_lib_frame[0] ? eng_top_lib_frame : "-", kind, mode, fn, buf);
   }
   free(full.s);
   return 1;
@@ -608,6 +609,22 @@ static void run_case(uint64_t seed, uint64_t idx, const char *tier, const char *
     sb_printf(&h2, "%sop to_png 0 0 %d 2\n", hd.s, lvl);
     unsigned char *file = parent_write_png(h2.s, &flen);
     free(file);
+    if (rng_chance(&rg, 1, 2)) { /* look for a shape whose file ends just behind a multiple of the stdio buffer size: the flush that meets the full
+                                    device then happens while libpng writes the trailer (png_write_end), after the rows and their buffer are done with */
+      for (int tries = 0; tries < 80; tries++) {
+        int r2 = 1 + (int)rng_below(&rg, 250), c2 = 1 + (int)rng_below(&rg, 2000), l2 = rng_chance(&rg, 1, 2) ? 0 : (int)rng_below(&rg, 10);
+        unsigned long long s2 = (unsigned long long)(rng_u64(&rg) >> 1);
+        sbuf_t hh = { 0 }, h3 = { 0 };
+        emit_header(&hh, "C", kind, lib);
+        sb_printf(&hh, "clock %lld %lld\nmat 0 %d %d rand 128 %llu\n", clk, jump, r2, c2, s2);
+        sb_printf(&h3, "%sop to_png 0 0 %d 2\n", hh.s, l2);
+        size_t fl2 = 0;
+        unsigned char *f2 = parent_write_png(h3.s, &fl2);
+        free(f2); free(h3.s);
+        if (fl2 > 4096 && fl2 % 4096 >= 1 && fl2 % 4096 <= 12) { sb_reset(&hd); sb_printf(&hd, "%s", hh.s); flen = fl2; lvl = l2; free(hh.s); probe("write_trailer_on_buffer_boundary"); break; }
+        free(hh.s);
+      }
+    }
     int n = thorough ? 60 : 16;
     for (int k = 0; k < n; k++) {
       sb_reset(&sb);
@@ -615,7 +632,16 @@ static void run_case(uint64_t seed, uint64_t idx, const char *tier, const char *
       int which = k < 2 ? k + 1 : 0;
       if (which == 1) { sb_printf(&sb, "fsfault 0 open_errno=%d\n", rng_chance(&rg, 1, 2) ? EACCES : EMFILE); probe("write_open_fail"); }
       else if (which == 2) { sb_printf(&sb, "fsfault 0 close_fails=1\n"); probe("write_close_fail"); }
-      else { sb_printf(&sb, "fsfault 0 write_fail_at=%zu\n", (size_t)rng_below(&rg, flen + 1)); probe("write_enospc"); }
+      else {
+        /* where the device fills up: anywhere, but every third time within the last stdio buffer's worth of the file (the error then
+           surfaces in png_write_end or fclose, after the rows were written) and every fifth time within the first bytes */
+        size_t at = (size_t)rng_below(&rg, flen + 1);
+        if (k % 3 == 2) { size_t tail = flen < 4096 ? flen : 4096; at = flen - (size_t)rng_below(&rg, tail + 1); }
+        else if (k % 5 == 4) at = (size_t)rng_below(&rg, flen < 64 ? flen + 1 : 64);
+        int unbuf = k % 2; /* every second fault meets an unbuffered stream: the error surfaces in exactly the library call that writes byte `at` */
+        if (unbuf && k % 3 == 2) at = flen - (size_t)rng_below(&rg, flen < 40 ? flen + 1 : 40); /* ... e.g. in the trailer written by png_write_end */
+        sb_printf(&sb, "fsfault 0 write_fail_at=%zu%s\n", at, unbuf ? " unbuffered=1" : ""); probe("write_enospc"); if (unbuf) probe("write_unbuffered");
+      }
       sb_printf(&sb, "op to_png 0 0 %d 2\nexpect write\nexpect balanced\n", lvl);
       eng_write_file(curpath, sb.s);
       run_one(sb.s, 'W', errpath, &t, outdir, idx, k, kind, 1);
